@@ -24,11 +24,18 @@ def _data_tokens():
             if dt == 'complex':
                 x = x + 1j * (np.sin(2 * np.pi * 0.17 * t + i) + 0.4 * rng.randn(n))
             toks[(dt, i + 1)] = x
+    # the samples of the first real vector declared complex (same values, other datatype)
+    toks[('complex', 3)] = toks[('real', 1)].astype(complex)
     return toks
 
 
 DATA = _data_tokens()
 DATA_N = (16, 20)
+TOKENS = {'real': (1, 2), 'complex': (1, 2, 3)}
+
+
+def token_len(dt, i):
+    return len(DATA[(dt, i)])
 
 
 class Cls(object):
@@ -120,7 +127,7 @@ def nfft_py(arg):
 def token_of(p):
     x = p.data
     dt = p.datatype
-    for i in (1, 2):
+    for i in TOKENS[dt]:
         ref = DATA[(dt, i)]
         if len(x) == len(ref) and np.array_equal(np.asarray(x), ref):
             return i
@@ -154,26 +161,37 @@ def axis_of(p):
 
 
 # ------------------------------------------------------------------ operations
+NUMPY_SCALARS = [False]     # when set, integer / float arguments are passed as numpy scalars (as in `for lag in np.arange(..)`)
+
+
+def _num(v):
+    if NUMPY_SCALARS[0] and isinstance(v, int) and not isinstance(v, bool):
+        return np.int64(v)
+    if NUMPY_SCALARS[0] and isinstance(v, float):
+        return np.float64(v)
+    return v
+
+
 def apply_op(p, op, arg):
     """apply one public operation; returns (ok, exception)"""
     if op == 'SetData':
-        return call_guard(setattr, p, 'data', DATA[(p.datatype, arg['data'])])
+        return call_guard(setattr, p, 'data', DATA[(arg.get('dt', p.datatype), arg['data'])])
     if op == 'SetNFFT':
         return call_guard(setattr, p, 'NFFT', nfft_py(arg))
     if op == 'SetSampling':
-        return call_guard(setattr, p, 'sampling', arg / float(SAMP_UNIT))
+        return call_guard(setattr, p, 'sampling', _num(arg / float(SAMP_UNIT)))
     if op == 'SetSides':
         return call_guard(setattr, p, 'sides', arg)
     if op == 'SetWindow':
         return call_guard(setattr, p, 'window', arg)
     if op == 'SetLag':
-        return call_guard(setattr, p, 'lag', arg)
+        return call_guard(setattr, p, 'lag', _num(arg))
     if op == 'SetDetrend':
         return call_guard(setattr, p, 'detrend', None if arg == 'none' else arg)
     if op == 'SetScale':
         return call_guard(setattr, p, 'scale_by_freq', arg)
     if op == 'SetArOrder':
-        return call_guard(setattr, p, 'ar_order', arg)
+        return call_guard(setattr, p, 'ar_order', arg)       # orders are type-checked by some estimators: python ints only
     if op == 'SetMaOrder':
         return call_guard(setattr, p, 'ma_order', arg)
     if op == 'Call':
